@@ -191,6 +191,42 @@ Print Assumptions C13_fileclient_accepts.
 Print Assumptions C13_fileclient_agrees.
 Print Assumptions C13_bad_cache_ignored.
 
+(* ---- "The file cache is replaced atomically with owner-only permissions (a crash or write error
+   leaves the old or the new document)": the file-system model and the verified monitor of C04
+   (Server/FS.v, FSProofs.v) instantiated for the cache file with real bytes.  The correspondence run
+   evaluates [atomic_replace_ok] on the system calls of a real FileCache.Write (case CFs of Run_C13.v);
+   for EVERY trace the monitor accepts and EVERY kill point - between two calls or inside one, after
+   any prefix of a write - the cache path holds exactly the old document (or nothing, if there was
+   none) or exactly the new one; what is visible there is always fully flushed and mode 0600; and the
+   only call that touches the cache path is the final rename. *)
+From Setec Require Server.FSMap Server.FS Server.FSProofs.
+
+Theorem C13_filecache_crash_atomic : forall (old : option (list N)) (new : list N) (tr : list (Setec.Server.FS.op N)),
+  Setec.Server.FS.atomic_replace_ok N.eqb old new tr = true ->
+  forall s, Setec.Server.FSProofs.crash_state (Setec.Server.FS.init old) tr s ->
+  Setec.Server.FS.read s Setec.Server.FS.Live = old \/ Setec.Server.FS.read s Setec.Server.FS.Live = Some new.
+Proof. exact (@Setec.Server.FSProofs.monitor_crash_atomic N N.eqb N.eqb_eq). Qed.
+
+Theorem C13_filecache_flushed_owner_only : forall old new (tr : list (Setec.Server.FS.op N)),
+  Setec.Server.FS.atomic_replace_ok N.eqb old new tr = true ->
+  forall s, Setec.Server.FSProofs.crash_state (Setec.Server.FS.init old) tr s ->
+  forall f, Setec.Server.FSMap.afind Setec.Server.FS.Live (Setec.Server.FS.d s) = Some f ->
+  Setec.Server.FS.stable f = Setec.Server.FS.data f /\ Setec.Server.FS.mode f = 384%N.
+Proof. exact (@Setec.Server.FSProofs.monitor_flushed_before_visible N N.eqb N.eqb_eq). Qed.
+
+Print Assumptions C13_filecache_crash_atomic.
+Print Assumptions C13_filecache_flushed_owner_only.
+
+(* the trace of a real FileCache.Write (as recorded) is accepted; writing in place is not *)
+Example ex_fs_cache_good : Setec.Server.FS.atomic_replace_ok N.eqb (Some [9%N]) [1; 2; 3]%N
+  [@Setec.Server.FS.Stat N Setec.Server.FS.Live; @Setec.Server.FS.CreateExcl N 0%N (Setec.Server.FS.Tmp 0%N) 384%N;
+   @Setec.Server.FS.Write N 0%N [1; 2; 3]%N; @Setec.Server.FS.Chmod N 0%N 384%N; @Setec.Server.FS.Fsync N 0%N; @Setec.Server.FS.Close N 0%N;
+   @Setec.Server.FS.Stat N Setec.Server.FS.Live; @Setec.Server.FS.Rename N (Setec.Server.FS.Tmp 0%N) Setec.Server.FS.Live] = true.
+Proof. vm_compute. reflexivity. Qed.
+Example ex_fs_cache_in_place : Setec.Server.FS.atomic_replace_ok N.eqb (Some [9%N]) [1; 2; 3]%N
+  [@Setec.Server.FS.OpenW N 0%N Setec.Server.FS.Live true; @Setec.Server.FS.Write N 0%N [1; 2; 3]%N; @Setec.Server.FS.Close N 0%N] = false.
+Proof. vm_compute. reflexivity. Qed.
+
 (* ---- non-vacuity and monitor examples (a toy base64: identity, which satisfies the law) *)
 Definition ex_store : store bytes :=
   ST [([97], Some (CE 3 [1; 2] 1700000000 true)); ([98; 47; 99], Some (CE 1 [] (-5) false))]%N [[97]]%N [] true 0.
